@@ -32,6 +32,10 @@ def gen_dims(rng, allow_mnl=True):
     from vlib.oracle.cone import Dims
     style = rng.choice(["mixed", "mixed", "mixed", "l", "q", "s", "empty", "degenerate", "multi"])
     mnl = rng.choice([0, 0, 1, 2, 3]) if allow_mnl else 0
+    if rng.random() < 0.06:
+        # sizes past the small powers of two where unrolled / blocked / panel code changes its path
+        return Dims(rng.choice([0, 9, 17]), [rng.choice([8, 9, 12, 16, 17])] if rng.random() < 0.6 else [],
+                    [rng.choice([8, 9, 10])] + ([rng.randint(1, 3)] if rng.random() < 0.5 else []) if rng.random() < 0.7 else [], mnl)
     if style == "empty":
         return Dims(0, [], [], mnl)
     if style == "l":
@@ -152,7 +156,7 @@ def run(ctx):
         flags = ""
 
         if kern == "scale":
-            ncols = rng.choice([1, 1, 2, 3])
+            ncols = rng.choice([1, 1, 2, 3]) if rng.random() < 0.9 else rng.choice([8, 9, 12, 17])     # past one panel of columns
             trans, inverse = rng.choice("NT"), rng.choice("NI")
             flags = trans + inverse + "c%d" % min(ncols, 2)
             Wn = gen_W(rng, dims)
